@@ -152,12 +152,19 @@ fn describe(c: &CallRec) -> String {
 
 /// Is this call's evaluation cut short by an injected matcher panic?
 fn matcher_fault_applies(scn: &Scenario, flat: &Flat, c: &CallRec, first_accept: Option<usize>) -> Option<u16> {
-    if let Some(Fault::MatcherPanic { uid }) = op_fault(scn, c.op) {
+    // (both kinds of trap are judged by where they actually sit when the call is evaluated: the
+    // generator's idea of "a matcher that will not be evaluated" is only a prediction)
+    if let Some(Fault::MatcherPanic { uid }) | Some(Fault::MatcherMustNotRun { uid }) = op_fault(scn, c.op) {
         let fp = flat.patterns.get(uid as usize)?;
         // (matchers written with the real matching! macro contain no fault point)
         if fp.m == c.m && !fp.spec.macro_form {
             if flat.ordered(c.m) {
-                return Some(uid);
+                // the only matcher an ordered call evaluates is the one of the pattern that owns its slot
+                let owner = c.pre.as_ref().and_then(|pre| slot_owner(flat, pre.ordered));
+                return match owner {
+                    Some(o) if o.uid == uid => Some(uid),
+                    _ => None,
+                };
             }
             match first_accept {
                 None => return Some(uid),
